@@ -264,11 +264,27 @@ func runC18(rc *RunCtx) {
 			sock.Close()
 		})
 	}
+	// In a quarter of the runs the listeners are shut down while the clients are
+	// still active (every order of connection termination and listener shutdown).
+	earlyStop := G.Draw(4) == 0
+	if earlyStop {
+		d := time.Duration(G.Draw(4)) * time.Millisecond
+		ny := G.Draw(20)
+		simrt.GoNamed("c18-early-shutdown", func() {
+			simrt.Sleep(d)
+			for i := 0; i < ny; i++ {
+				simrt.Yield()
+			}
+			tsrv.Stop()
+			usrv.Stop()
+		})
+		simrt.Probe("shutdown_during_traffic")
+	}
 	simrt.Quiesce()
 	// ---- others are unaffected: a clean connection and datagram still work ----
 	rc.Phase = "canary"
 	key := keys[0]
-	canaryOK := false
+	canaryOK := earlyStop
 	for attempt := 0; attempt < 8 && !canaryOK; attempt++ { // transient accept errors may be injected
 		cc, err := tsrv.connect(net.IPv4(198, 18, 42, 1).To4(), 38000+attempt)
 		if err != nil {
@@ -295,7 +311,7 @@ func runC18(rc *RunCtx) {
 	if !canaryOK {
 		rc.Failf("listener-stopped-serving:tcp", "after the adversarial inputs a clean TCP connection is no longer served")
 	}
-	if w.UDPWriteErr == 0 && w.UDPSockErr == 0 && w.UDPReadErr == 0 {
+	if !earlyStop && w.UDPWriteErr == 0 && w.UDPSockErr == 0 && w.UDPReadErr == 0 {
 		cs, _ := w.BindUDP(&net.UDPAddr{IP: net.IPv4(198, 18, 42, 2).To4(), Port: 38100})
 		plain := append(socksAddr(fmt.Sprintf("%s:7001", tgtIP)), []byte("canary")...)
 		cs.WriteToUDP(packUDP(key, plain), &net.UDPAddr{IP: proxyIP, Port: 9000})
@@ -318,8 +334,10 @@ func runC18(rc *RunCtx) {
 	}
 	// ---- shutdown: everything the server created must be gone ----
 	rc.Phase = "shutdown"
-	tsrv.Stop()
-	usrv.Stop()
+	if !earlyStop {
+		tsrv.Stop()
+		usrv.Stop()
+	}
 	utgt.Close()
 	for _, s := range strangers {
 		s.Close()
